@@ -615,7 +615,7 @@ func (p *c01) Shrink(c *Case) []*Case {
 	}
 	// 1. drop one top-level declaration (later ones first: they are less often referred to)
 	nd := len(f.Decls)
-	for i := nd - 1; i >= 0 && len(out) < 40; i-- {
+	for i := nd - 1; i >= 0 && len(out) < 10; i-- {
 		if gd, ok := f.Decls[i].(*ast.GenDecl); ok && gd.Tok == token.IMPORT {
 			continue
 		}
@@ -626,10 +626,10 @@ func (p *c01) Shrink(c *Case) []*Case {
 	// 2. drop one statement
 	ns := len(c01StmtSites(f))
 	step := 1
-	if ns > 60 {
-		step = ns / 60
+	if ns > 24 {
+		step = ns / 24
 	}
-	for k := ns - 1; k >= 0 && len(out) < 100; k -= step {
+	for k := ns - 1; k >= 0 && len(out) < 30; k -= step {
 		fs2, g := parse()
 		sites := c01StmtSites(g)
 		if k >= len(sites) {
